@@ -23,6 +23,9 @@
 (*  Nested          every child lies inside its parent (exact closed       *)
 (*                  point-in-cell tests on all child nodes)                *)
 (*  OneParent       every new cell has exactly one parent                  *)
+(*  OnLattice       the new nodes are on the 1/12 lattice of the old ones  *)
+(*                  (true for every family here; otherwise the harness     *)
+(*                  could not hand exact coordinates to TLC)               *)
 (*  MatchesRef      refine_grid_1d: the child segments are exactly the     *)
 (*                  ratio-fold equal subdivision (Refine1dRef)             *)
 (*  NodeCount / SameDomain  remesh_1d: requested number of nodes, cells    *)
@@ -69,6 +72,7 @@ JudgeAll ==
   IN
   IF ~ParentOK(PE) THEN Tell("outside", 1)
   ELSE IF C.raised THEN Check("Computes", FALSE)
+  ELSE IF C.inexact THEN Check("OnLattice", FALSE)
   ELSE IF K = "refine1d" THEN
     /\ Check("ValidGrid", Cg.dim = 1 /\ ValidGrid(Cg, CE))
     /\ Check("MeasureEqual", MeasureEqual(Pg, PE, Cg, CE, d))
